@@ -5,5 +5,5 @@ CONSTANTS
   Shard = @SHARD@
   NShards = @NSHARDS@
   Emit = @EMIT@
-INVARIANTS WellFormed ClassTotal EmitCase
+INVARIANTS WellFormed ClassTotal PortsDistinct EmitCase
 CHECK_DEADLOCK FALSE
